@@ -84,6 +84,12 @@ impl<'a> Chk<'a> {
         // (when the transliteration of the text is the text itself, that one candidate stays)
         let emoticon_literal = fixed_word.is_none() && self.emoticons.contains(&typed) && crate::avro::uncurl(&translit) != typed && !evs.iter().any(|e| matches!(e, Ev::Bs));
         let b: Vec<String> = twin.items().iter().filter(|c| !self.is_emoji(c) && !(emoticon_literal && **c == typed)).cloned().collect();
+        // directly: the raw typed text is never a candidate under ANSI (unless it is its own transliteration);
+        // the twin runs the same code, so this clause cannot be left to the comparison
+        if fixed_word.is_none() && !typed.is_empty() && crate::avro::uncurl(&translit) != typed && a.iter().any(|c| *c == typed) {
+            self.report.add(Violation::new("C16", "raw-english-in-ansi", "raw-english-in-ansi").opts(opts_on).events(evs).detail(format!("the raw typed text {:?} is offered with ANSI on: {:?}", typed, a)));
+            return;
+        }
         if let Some(e) = a.iter().find(|c| self.is_emoji(c)) {
             self.report.add(Violation::new("C16", "emoji-in-ansi", "emoji-in-ansi").opts(opts_on).events(evs).detail(format!("emoji candidate {:?} offered with ANSI on: {:?}", e, a)));
             return;
@@ -216,6 +222,18 @@ pub fn run(report: &Report, thorough: bool) -> Evidence {
 
     // ---------- phonetic paired walks ----------
     if crate::par::part_enabled("phonetic") {
+        // a learned store in which the user chose the raw typed text for every one- and some two-letter words
+        // (such a choice must not bring the raw text back under ANSI)
+        let raw_store: String = {
+            let mut m = serde_json::Map::new();
+            for c in 'a'..='z' {
+                m.insert(c.to_string(), json!(c.to_string()));
+            }
+            for w in ["as", "am", "ki", "na", "se", "ar"] {
+                m.insert(w.to_string(), json!(w));
+            }
+            serde_json::Value::Object(m).to_string()
+        };
         let mk = |xdg: &str, ansi: bool, english: bool, smart: bool, psugg: bool| {
             let mut o = Opts::phonetic(&real_db(), xdg);
             o.ansi = ansi;
@@ -250,9 +268,16 @@ pub fn run(report: &Report, thorough: bool) -> Evidence {
             |w| scratch_xdg(&format!("c16p-{}", w)),
             |xdg, idx| {
                 let (aid, prefix, depth, smart, psugg) = &jobs[idx];
-                let on = mk(xdg, true, true, *smart, *psugg);
-                let twin = mk(&format!("{}-twin", xdg), false, false, *smart, *psugg);
-                std::fs::create_dir_all(twin.opts.user_dir()).ok();
+                let mut on = mk(xdg, true, true, *smart, *psugg);
+                std::fs::create_dir_all(format!("{}-twin/openbangla-keyboard", xdg)).ok();
+                let mut twin = mk(&format!("{}-twin", xdg), false, false, *smart, *psugg);
+                if *aid == 1 && idx % 2 == 1 {
+                    // every second lower-case walk runs over the learned store (both contexts)
+                    std::fs::write(on.opts.selection_file(), &raw_store).expect("store");
+                    std::fs::write(twin.opts.selection_file(), &raw_store).expect("store");
+                    on.reset().expect("reset");
+                    twin.reset().expect("reset");
+                }
                 let alphabet: &[char] = if *aid == 0 { &all94 } else { &az };
                 let mut d = PairDfs { on, twin, chk: &chk, alphabet, text: String::new(), events: 0 };
                 let mut ok = true;
